@@ -581,3 +581,57 @@ Proof.
     exists (p :: body), lst. rewrite E, W4, W5. repeat split; try assumption; try lia.
     constructor; [split; reflexivity|exact F].
 Qed.
+
+(* ---- the kernel-release gate --------------------------------------------------------------------------- *)
+
+Lemma gso_limit_values : wb_segs_pre_6_9 = 63 /\ wb_segs_6_9 = 127.
+Proof. split; reflexivity. Qed.
+
+(* below 6.9 (as a pair) the limit is the conservative one, for every major and minor *)
+Lemma gso_limit_old (major minor : Z) :
+  (major < 6 \/ (major = 6 /\ minor < 9))%Z -> gso_max_segments major minor = 63.
+Proof.
+  intros H. unfold gso_max_segments.
+  destruct (6 <? major)%Z eqn:E1; [apply Z.ltb_lt in E1; lia|].
+  destruct (major =? 6)%Z eqn:E2; cbn [orb andb]; [|reflexivity].
+  destruct (9 <=? minor)%Z eqn:E3; [|reflexivity].
+  apply Z.eqb_eq in E2. apply Z.leb_le in E3. lia.
+Qed.
+
+Lemma gso_limit_new (major minor : Z) :
+  (6 < major \/ (major = 6 /\ 9 <= minor))%Z -> gso_max_segments major minor = 127.
+Proof.
+  intros H. unfold gso_max_segments.
+  destruct (6 <? major)%Z eqn:E1; [reflexivity|]. apply Z.ltb_ge in E1.
+  destruct H as [H|[H1 H2]]; [lia|]. subst major. cbn [orb andb Z.eqb Pos.eqb].
+  replace (9 <=? minor)%Z with true by (symmetry; apply Z.leb_le; exact H2). reflexivity.
+Qed.
+
+(* the limit never exceeds what the kernel of that release accepts: UDP_MAX_SEGMENTS (64, from 6.9 on 128) minus one *)
+Definition kernel_segs (major minor : Z) : N :=
+  if ((6 <? major) || ((major =? 6) && (9 <=? minor)))%Z%bool then 128 else 64.
+
+Lemma gso_limit_safe (major minor : Z) : gso_max_segments major minor + 1 <= kernel_segs major minor.
+Proof.
+  unfold gso_max_segments, kernel_segs.
+  destruct ((6 <? major) || ((major =? 6) && (9 <=? minor)))%Z%bool; vm_compute; discriminate.
+Qed.
+
+(* monotone in the version *)
+Lemma gso_limit_mono (a b c d : Z) :
+  (a < c \/ (a = c /\ b <= d))%Z -> gso_max_segments a b <= gso_max_segments c d.
+Proof.
+  intros H.
+  destruct (Z_lt_le_dec a 6) as [Ha|Ha].
+  - rewrite (gso_limit_old a b) by lia.
+    destruct (Z_lt_le_dec c 6); [rewrite gso_limit_old by lia; lia|].
+    destruct (Z.eq_dec c 6); [|rewrite gso_limit_new by lia; lia].
+    destruct (Z_lt_le_dec d 9); [rewrite gso_limit_old by lia; lia|rewrite gso_limit_new by lia; lia].
+  - destruct (Z.eq_dec a 6) as [Ea|Ea].
+    + destruct (Z_lt_le_dec b 9).
+      * rewrite (gso_limit_old a b) by lia.
+        destruct (Z.eq_dec c 6); [|rewrite gso_limit_new by lia; lia].
+        destruct (Z_lt_le_dec d 9); [rewrite gso_limit_old by lia; lia|rewrite gso_limit_new by lia; lia].
+      * rewrite (gso_limit_new a b) by lia. rewrite (gso_limit_new c d) by lia. lia.
+    + rewrite (gso_limit_new a b) by lia. rewrite (gso_limit_new c d) by lia. lia.
+Qed.
